@@ -651,4 +651,26 @@ theorem writeObj_of_steps {cfg : WriteCfg} {sd : Option F64} {o : WObj} {vsec : 
   unfold writeObj
   simp only [hs, Bool.false_eq_true, ↓reduceIte, bind, Except.bind, pure, Except.pure, h1, h2, h3, h4, liftErr, h5, h6]
 
+/-! ## the STRT / STOP / STEP keyword arguments -/
+
+
+
+theorem sssValuesK_default (sd : Option F64) (idx : Option (List F64)) : sssValuesK {} sd idx = sssValues sd idx := by
+  rcases idx with _ | ⟨_ | ⟨x, xs⟩⟩ <;> simp [sssValuesK, sssValues, ov]
+
+theorem updateStartStopStepK_default (sd : Option F64) (o : WObj) : updateStartStopStepK {} sd o = updateStartStopStep sd o := by
+  simp only [updateStartStopStepK, updateStartStopStep, sssValuesK_default]
+
+theorem prepareK_default (sd : Option F64) (o : WObj) : prepareK {} sd o = prepare sd o := by
+  simp only [prepareK, prepare, updateStartStopStepK_default]
+
+theorem prepareK_no_refresh (k : SssArgs) (sd : Option F64) (o : WObj) (h : refreshDecision o = .ok false) :
+    prepareK k sd o = prepare sd o := by
+  simp [prepareK, prepare, h, bind, Except.bind]
+
+/-- `ov`: a given value wins, `None` falls back -/
+theorem ov_given (g c : PVal) (h : g ≠ .none) : ov g c = g := by cases g <;> simp_all [ov]
+
+theorem ov_none (c : PVal) : ov .none c = c := rfl
+
 end Lasio.Wo
